@@ -84,3 +84,55 @@ Definition jcase_ok (b85 keys : list (val * val)) (plain pre back : val) : bool 
    were computed with the converter's own bytes hook *)
 Definition jload_ok (E : env) (cfg : ccfg) (t : ty) (back x : val) : bool :=
   match structure E cfg FUEL t back with Ok y => val_same y x | _ => false end.
+
+(* ---- the pyyaml preconfigured converter (preconf/pyyaml.py): the plain Converter's unstructured form with frozensets as
+   lists (unstruct_collection_overrides {FrozenSetSubscriptable: list}); yaml.safe_dump writes tuples as sequences, so
+   safe_load gives lists back; sets (!!set), bytes (!!binary) and scalar mapping keys of every kind survive ---- *)
+Fixpoint yamlify (u : val) : val :=
+  match u with
+  | VFrozenSet l | VList l => VList (map yamlify l)
+  | VTuple l => VTuple (map yamlify l)
+  | VSet l => VSet (map yamlify l)
+  | VDict kvs => VDict (map (fun kv => (yamlify (fst kv), yamlify (snd kv))) kvs)
+  | _ => u
+  end.
+Fixpoint yaml_rt (u : val) : val :=
+  match u with
+  | VList l | VTuple l => VList (map yaml_rt l)
+  | VSet l => VSet (map yaml_rt l)
+  | VFrozenSet l => VFrozenSet (map yaml_rt l)
+  | VDict kvs => VDict (map (fun kv => (yaml_rt (fst kv), yaml_rt (snd kv))) kvs)
+  | _ => u
+  end.
+(* what yaml.safe_dump represents: None, atoms, lists, tuples, sets, dicts -- no frozenset, enum member or instance *)
+Fixpoint yamlable (u : val) : bool :=
+  match u with
+  | VNone | VAtom _ _ => true
+  | VList l | VTuple l | VSet l => forallb yamlable l
+  | VDict kvs => forallb (fun kv => yamlable (fst kv) && yamlable (snd kv)) kvs
+  | VFrozenSet _ | VEnum _ _ | VInst _ _ => false
+  end.
+(* comparison up to the order of lists (a frozenset becomes a list in the iteration order of ITS frozenset object, which is
+   not the order of the plain converter's fresh one) *)
+Fixpoint ysame (a b : val) : bool :=
+  let fix sub (x y : list val) : bool :=
+    match x with
+    | [] => true
+    | u :: x' => (fix mem (y' : list val) : bool := match y' with [] => false | w :: r => ysame u w || mem r end) y && sub x' y
+    end in
+  let fix kv_sub (x y : list (val * val)) : bool :=
+    match x with
+    | [] => true
+    | (k, v) :: x' =>
+        (fix look (y' : list (val * val)) : bool :=
+           match y' with [] => false | (k2, v2) :: r => (ysame k k2 && ysame v v2) || look r end) y && kv_sub x' y
+    end in
+  match a, b with
+  | VNone, VNone => true
+  | VAtom k e, VAtom k' f => prim_eqb k k' && N.eqb e f
+  | VList x, VList y | VTuple x, VTuple y | VSet x, VSet y => Nat.eqb (length x) (length y) && sub x y
+  | VDict x, VDict y => Nat.eqb (length x) (length y) && kv_sub x y
+  | _, _ => false
+  end.
+Definition ycase_ok (plain pre back : val) : bool :=
+  ysame (yamlify plain) pre && ysame (yaml_rt pre) back && yamlable pre.
